@@ -2,7 +2,7 @@ import PprofVerif.Model.Session
 /- Driver operations for C10: the session model (`Model/Session.lean`) behind the line protocol.
 
    sess.run  <stypes: list str> <dflt: str> <floats: list (str, opt str)> <lines: list str>
-     → `ok` <n> then per line: <kind> <isAssignLine> <cmd: list str> <diff: list (str str)>, then the
+     → `ok` <n> then per line: <kind> <isAssignLine> <cmd: list str> <diff: list (str str)> <outfile: str>, then the
        final option record <list (str str)> and `alive`/`done`.
        kind ∈ assign-ok assign-err blank options quit help cmd-err cmd panic dead;
        diff = the options in which the per-command configuration (vcopy) differs from the options in
@@ -28,16 +28,17 @@ def cfgDiff (base v : Config) : Config :=
 
 def describe (cur : Config) (evs : List (Ev Out)) (assignLine : Bool) (wasDone : Bool) (nowDone : Bool) : Wr :=
   let flag := Wr.bool assignLine
-  if wasDone then ["dead"] ++ flag ++ Wr.list Wr.str [] ++ wrCfg []
+  let none := Wr.list Wr.str [] ++ wrCfg [] ++ Wr.str []
+  if wasDone then ["dead"] ++ flag ++ none
   else match evs with
-  | [.report (cmd, v)] => ["cmd"] ++ flag ++ Wr.list Wr.str cmd ++ wrCfg (cfgDiff cur v)
-  | [.options _] => ["options"] ++ flag ++ Wr.list Wr.str [] ++ wrCfg []
-  | [.help _] => ["help"] ++ flag ++ Wr.list Wr.str [] ++ wrCfg []
-  | [.panic] => ["panic"] ++ flag ++ Wr.list Wr.str [] ++ wrCfg []
-  | [] =>
-    (if assignLine then ["assign-ok"] else if nowDone then ["quit"] else ["blank"]) ++ flag ++ Wr.list Wr.str [] ++ wrCfg []
-  | _ =>
-    (if assignLine then ["assign-err"] else ["cmd-err"]) ++ flag ++ Wr.list Wr.str [] ++ wrCfg []
+  | [.report (cmd, v)] =>
+    -- last token: the file this report is written to (effective `output`), "" = stdout / temp file
+    ["cmd"] ++ flag ++ Wr.list Wr.str cmd ++ wrCfg (cfgDiff cur v) ++ Wr.str ((v.get (lit "output")).getD [])
+  | [.options _] => ["options"] ++ flag ++ none
+  | [.help _] => ["help"] ++ flag ++ none
+  | [.panic] => ["panic"] ++ flag ++ none
+  | [] => (if assignLine then ["assign-ok"] else if nowDone then ["quit"] else ["blank"]) ++ flag ++ none
+  | _ => (if assignLine then ["assign-err"] else ["cmd-err"]) ++ flag ++ none
 
 def runLines (E : Env Unit Out) : Session → List Str → Wr × Session
   | s, [] => ([], s)
